@@ -73,7 +73,8 @@ package keeper
 //@   panics when owner == gov.daoowner && (val(amount) < 0 || !denom_ok("upokt"))      // NewCoin, after the owner check, before any write
 //@   uses bankinv
 //@   requires len(owner) == 20
-//@   modifies acct.id, acct.next, acct.coins, acct.addr, auth.bal[modaddr("dao")], auth.has[modaddr("dao")], auth.supply
+//@   modifies acct.id, acct.next, acct.coins, acct.addr, auth.bal[modaddr("dao")], auth.has[modaddr("dao")], auth.supply, auth.total
+//@   ensures [conserved@C02] forall d Str :: amt(auth.supply, d) - auth.total[d] == amt(old(auth.supply), d) - old(auth.total[d])
 //@   ensures [rejected] res.Code != 0 ==> auth.bal == old(auth.bal) && auth.supply == old(auth.supply)
 //@   ensures [owner] res.Code == 0 ==> owner == gov.daoowner
 //@   ensures [exact] res.Code == 0 ==> amt(auth.bal[modaddr("dao")], "upokt") == amt(old(auth.bal[modaddr("dao")]), "upokt") - val(amount) && amt(auth.supply, "upokt") == amt(old(auth.supply), "upokt") - val(amount)
